@@ -105,7 +105,8 @@ def lockstep_counts_delta(b, bk_event):
     ev = elem_src(peel(bk_event["call"].args[1]))
     if not ev or ev[2] or [a for a in ev[1] if a not in ("zip", "iter", "into_iter", "copied", "cloned")]:
         return False
-    return peel(ev[0]) == SELF_FIELD("counts") and ev[3] == idx[1]
+    # (explicit list: the default peel looks through order-changing adapters such as rev())
+    return peel(ev[0], transparent=["Deref::deref", "slice::iter", "Vec::iter", "IntoIterator::into_iter"]) == SELF_FIELD("counts") and ev[3] == idx[1]
 
 
 def count_of(sac_call):
